@@ -1,8 +1,637 @@
 package fakeredis
 
-// Cluster role (placeholder until built): see DESIGN.md §2.1 "Cluster role".
+// Cluster role: several Servers form one Redis Cluster sharing a slot table (DESIGN.md §2.1).
+//
+//	cl := fakeredis.NewCluster(3, fakeredis.Options{})        // 3 masters, slots split evenly
+//	defer cl.Close()
+//	cl.Addrs()                                                // loop-back addresses of the nodes
+//	cl.At(cl.ReqCount()+40, func(t *fakeredis.Topo) {         // scripted topology change
+//		t.SetMigrating(slot, to)                              //   owner: MIGRATING(to), to: IMPORTING(owner)
+//		t.MoveKeys(slot, "k1")                                //   MIGRATE some (or all) keys
+//		t.SetSlotOwner(slot, to)                              //   CLUSTER SETSLOT <slot> NODE <to> everywhere
+//	})
+//	cl.Applied()                                              // globally ordered effect log (Node on each entry)
+//
+// Ordering: every request of every node is processed while holding ONE cluster-wide lock
+// (taken in Server.handleLocked through ClusterNode.enter/leave), so requests, effects and
+// topology changes are totally ordered; GReq is the 1-based cluster-wide request number, GSeq
+// the cluster-wide effect number.
+//
+// Routing is decided before execution exactly where Redis decides it (getNodeByQuery): slots are
+// computed with ref.HashSlot (the independent spec implementation), never with code of the
+// repository under test.
 
-type ClusterNode struct{}
+import (
+	"fmt"
+	"sort"
+	"strings"
+	"sync"
+	"time"
 
-func (n *ClusterNode) check(s *Server, c *conn, cmd string, args [][]byte) Reply { return nil }
-func (n *ClusterNode) checkTxn(s *Server, c *conn, q []queued) Reply             { return nil }
+	"verif/internal/ref"
+)
+
+// NumSlots is the number of hash slots.
+const NumSlots = ref.Slots
+
+// CApp is one entry of the cluster-wide effect log.
+type CApp struct {
+	GSeq int64 // cluster-wide effect sequence number (1-based, total order)
+	GReq int64 // cluster-wide number of the request that made it take effect
+	Node int   // index of the node that executed it
+	App
+}
+
+// CReq is one entry of the cluster-wide request log.
+type CReq struct {
+	GReq int64
+	Node int
+	Req
+}
+
+// TopoEvent records a topology change (for witnesses).
+type TopoEvent struct {
+	AfterGReq int64 // happened after this many requests had been processed cluster-wide
+	AfterGSeq int64 // ... and after this many effects
+	What      string
+}
+
+type schedItem struct {
+	at int64
+	fn func(t *Topo)
+}
+
+// Cluster is a set of Servers sharing one slot table.
+type Cluster struct {
+	mu    sync.Mutex // THE cluster-wide lock (order: Server.mu, then Cluster.mu)
+	opt   Options
+	nodes []*Server
+
+	owner [NumSlots]int // slot -> node index
+
+	reqN int64
+	gseq int64
+
+	applied []CApp
+	reqs    []CReq
+	events  []TopoEvent
+	redir   map[string]int64 // MOVED / ASK / TRYAGAIN / CROSSSLOT replies served
+
+	sched []schedItem
+
+	onApplied func(a *CApp)
+	onRequest func(r *CReq)
+	keepReqs  bool
+	closed    bool
+}
+
+// ClusterNode is the per-Server part of the cluster role.
+type ClusterNode struct {
+	cl        *Cluster
+	idx       int
+	id        string      // 40 hex characters
+	migrating map[int]int // slot -> target node (I own the slot and am migrating it away)
+	importing map[int]int // slot -> source node (I am receiving the slot)
+	appMark   int         // len(s.applied) already merged into the cluster log
+}
+
+// Topo is the handle for topology manipulation; it is only valid inside Cluster.Update /
+// Cluster.At callbacks (the cluster-wide lock is held).  Do not call locking methods of Cluster
+// or of the node Servers (Do, Snapshot, Kill, ...) from inside a callback.
+type Topo struct{ cl *Cluster }
+
+// NewCluster starts n master nodes on loop-back ports; the 16384 slots are split evenly
+// (node i owns [i*16384/n, (i+1)*16384/n) ).
+func NewCluster(n int, opt Options) *Cluster {
+	if n < 1 {
+		panic("fakeredis: NewCluster needs at least one node")
+	}
+	cl := &Cluster{opt: opt, redir: map[string]int64{}, keepReqs: true}
+	for i := 0; i < n; i++ {
+		cl.addNodeLocked()
+	}
+	for s := 0; s < NumSlots; s++ {
+		cl.owner[s] = s * n / NumSlots
+	}
+	return cl
+}
+
+func (cl *Cluster) addNodeLocked() int {
+	s := New(cl.opt)
+	idx := len(cl.nodes)
+	s.cluster = &ClusterNode{cl: cl, idx: idx, id: fmt.Sprintf("%040x", idx+1),
+		migrating: map[int]int{}, importing: map[int]int{}}
+	if err := s.Start(); err != nil {
+		panic(err)
+	}
+	cl.nodes = append(cl.nodes, s)
+	return idx
+}
+
+// Close stops every node.
+func (cl *Cluster) Close() {
+	cl.mu.Lock()
+	cl.closed = true
+	nodes := append([]*Server{}, cl.nodes...)
+	cl.mu.Unlock()
+	for _, s := range nodes {
+		s.Close()
+	}
+}
+
+// ---- read accessors (take the cluster lock)
+
+func (cl *Cluster) NumNodes() int {
+	cl.mu.Lock()
+	defer cl.mu.Unlock()
+	return len(cl.nodes)
+}
+
+// Node returns the i-th node's Server (for CutAfter/Kill/SetHooks...).  Its keyspace and logs
+// should be read through the Cluster accessors while traffic is running.
+func (cl *Cluster) Node(i int) *Server {
+	cl.mu.Lock()
+	defer cl.mu.Unlock()
+	return cl.nodes[i]
+}
+
+func (cl *Cluster) Addr(i int) string { return cl.Node(i).Addr() }
+
+func (cl *Cluster) Addrs() []string {
+	cl.mu.Lock()
+	defer cl.mu.Unlock()
+	out := make([]string, len(cl.nodes))
+	for i, s := range cl.nodes {
+		out[i] = s.addr
+	}
+	return out
+}
+
+// NodeID returns the 40-character node id of node i.
+func (cl *Cluster) NodeID(i int) string { return cl.Node(i).cluster.id }
+
+// Slot is HASH_SLOT(key) by the reference implementation.
+func Slot(key []byte) int { return ref.HashSlot(key) }
+
+func (cl *Cluster) Owner(slot int) int {
+	cl.mu.Lock()
+	defer cl.mu.Unlock()
+	return cl.owner[slot]
+}
+
+// OwnerOfKey returns the node index currently owning key's slot.
+func (cl *Cluster) OwnerOfKey(key []byte) int { return cl.Owner(Slot(key)) }
+
+// SlotRanges returns the sorted, maximal [left,right] slot ranges owned by node i.
+func (cl *Cluster) SlotRanges(i int) [][2]int {
+	cl.mu.Lock()
+	defer cl.mu.Unlock()
+	return cl.rangesLocked(i)
+}
+
+func (cl *Cluster) rangesLocked(i int) [][2]int {
+	var out [][2]int
+	start := -1
+	for s := 0; s <= NumSlots; s++ {
+		mine := s < NumSlots && cl.owner[s] == i
+		if mine && start < 0 {
+			start = s
+		}
+		if !mine && start >= 0 {
+			out = append(out, [2]int{start, s - 1})
+			start = -1
+		}
+	}
+	return out
+}
+
+// ReqCount is the number of requests processed cluster-wide so far.
+func (cl *Cluster) ReqCount() int64 {
+	cl.mu.Lock()
+	defer cl.mu.Unlock()
+	return cl.reqN
+}
+
+// Applied returns a copy of the cluster-wide effect log in global order.
+func (cl *Cluster) Applied() []CApp {
+	cl.mu.Lock()
+	defer cl.mu.Unlock()
+	return append([]CApp{}, cl.applied...)
+}
+
+// Requests returns a copy of the cluster-wide request log in global order.
+func (cl *Cluster) Requests() []CReq {
+	cl.mu.Lock()
+	defer cl.mu.Unlock()
+	return append([]CReq{}, cl.reqs...)
+}
+
+// Events returns the topology changes made so far.
+func (cl *Cluster) Events() []TopoEvent {
+	cl.mu.Lock()
+	defer cl.mu.Unlock()
+	return append([]TopoEvent{}, cl.events...)
+}
+
+// Redirects returns how many MOVED / ASK / TRYAGAIN / CROSSSLOT replies the nodes served.
+func (cl *Cluster) Redirects() map[string]int64 {
+	cl.mu.Lock()
+	defer cl.mu.Unlock()
+	out := map[string]int64{}
+	for k, v := range cl.redir {
+		out[k] = v
+	}
+	return out
+}
+
+// Snapshot deep-copies node i's keyspace.
+func (cl *Cluster) Snapshot(i int) []DB {
+	cl.mu.Lock()
+	defer cl.mu.Unlock()
+	return cloneDBs(cl.nodes[i].dbs)
+}
+
+// Lookup finds key in DB 0 of the nodes: the nodes holding it and a copy of the first object.
+func (cl *Cluster) Lookup(key string) (nodes []int, obj *Obj) {
+	cl.mu.Lock()
+	defer cl.mu.Unlock()
+	for i, s := range cl.nodes {
+		if o, ok := s.dbs[0][key]; ok {
+			nodes = append(nodes, i)
+			if obj == nil {
+				obj = o.Clone()
+			}
+		}
+	}
+	return
+}
+
+// SetOnApplied installs a callback invoked under the cluster lock for every applied command.
+func (cl *Cluster) SetOnApplied(fn func(a *CApp)) {
+	cl.mu.Lock()
+	cl.onApplied = fn
+	cl.mu.Unlock()
+}
+
+// SetOnRequest installs a callback invoked under the cluster lock after every request.
+func (cl *Cluster) SetOnRequest(fn func(r *CReq)) {
+	cl.mu.Lock()
+	cl.onRequest = fn
+	cl.mu.Unlock()
+}
+
+// OpenConns returns the number of open client connections over all nodes.
+func (cl *Cluster) OpenConns() int {
+	cl.mu.Lock()
+	nodes := append([]*Server{}, cl.nodes...)
+	cl.mu.Unlock()
+	n := 0
+	for _, s := range nodes {
+		s.mu.Lock()
+		n += len(s.conns)
+		s.mu.Unlock()
+	}
+	return n
+}
+
+// WaitIdle waits until no client connection is open any more, or — when connections linger —
+// until no request arrived for `quiet`; false if neither happened within max.
+func (cl *Cluster) WaitIdle(quiet, max time.Duration) bool {
+	deadline := time.Now().Add(max)
+	last := cl.ReqCount()
+	lastChange := time.Now()
+	for time.Now().Before(deadline) {
+		if cl.OpenConns() == 0 {
+			// connections are removed after their last request was processed
+			return true
+		}
+		if n := cl.ReqCount(); n != last {
+			last, lastChange = n, time.Now()
+		} else if time.Since(lastChange) >= quiet {
+			return true
+		}
+		time.Sleep(2 * time.Millisecond)
+	}
+	return false
+}
+
+// ---- scripting
+
+// Update runs fn with the cluster lock held (an immediate topology change).
+func (cl *Cluster) Update(fn func(t *Topo)) {
+	cl.mu.Lock()
+	defer cl.mu.Unlock()
+	fn(&Topo{cl})
+}
+
+// At schedules fn to run (under the cluster lock) as soon as n requests have been processed
+// cluster-wide, i.e. after request n and before request n+1 is routed.  Use
+// cl.At(cl.ReqCount()+k, ...) to place a change k requests from now.
+func (cl *Cluster) At(n int64, fn func(t *Topo)) {
+	cl.mu.Lock()
+	defer cl.mu.Unlock()
+	if cl.reqN >= n {
+		fn(&Topo{cl})
+		return
+	}
+	cl.sched = append(cl.sched, schedItem{n, fn})
+	sort.SliceStable(cl.sched, func(i, j int) bool { return cl.sched[i].at < cl.sched[j].at })
+}
+
+// Pending returns the number of scheduled changes that have not fired yet.
+func (cl *Cluster) Pending() int {
+	cl.mu.Lock()
+	defer cl.mu.Unlock()
+	return len(cl.sched)
+}
+
+// convenience wrappers (immediate)
+func (cl *Cluster) MigrateSlot(slot, to int) { cl.Update(func(t *Topo) { t.MigrateSlot(slot, to) }) }
+func (cl *Cluster) AddNode() (idx int) {
+	cl.Update(func(t *Topo) { idx = t.AddNode() })
+	return
+}
+
+func (t *Topo) event(format string, a ...any) {
+	t.cl.events = append(t.cl.events, TopoEvent{AfterGReq: t.cl.reqN, AfterGSeq: t.cl.gseq, What: fmt.Sprintf(format, a...)})
+}
+
+func (t *Topo) NumNodes() int      { return len(t.cl.nodes) }
+func (t *Topo) Owner(slot int) int { return t.cl.owner[slot] }
+func (t *Topo) Addr(i int) string  { return t.cl.nodes[i].addr }
+func (t *Topo) ReqCount() int64    { return t.cl.reqN }
+
+// MigratingTo returns the target of slot's migration at its owner, or -1.
+func (t *Topo) MigratingTo(slot int) int {
+	if to, ok := t.cl.nodes[t.cl.owner[slot]].cluster.migrating[slot]; ok {
+		return to
+	}
+	return -1
+}
+
+// AddNode starts a new empty master (no slots) and returns its index.
+func (t *Topo) AddNode() int {
+	i := t.cl.addNodeLocked()
+	t.event("node %d (%s) added", i, t.cl.nodes[i].addr)
+	return i
+}
+
+// SetMigrating puts slot into MIGRATING(to) at its owner and IMPORTING(owner) at `to`
+// (CLUSTER SETSLOT <slot> IMPORTING on the target, then MIGRATING on the source).
+func (t *Topo) SetMigrating(slot, to int) {
+	from := t.cl.owner[slot]
+	if from == to {
+		return
+	}
+	t.cl.nodes[from].cluster.migrating[slot] = to
+	t.cl.nodes[to].cluster.importing[slot] = from
+	t.event("slot %d: node %d MIGRATING -> node %d IMPORTING", slot, from, to)
+}
+
+// SetNodeMigrating / SetNodeImporting set one side only (half-open states).
+func (t *Topo) SetNodeMigrating(node, slot, to int) {
+	t.cl.nodes[node].cluster.migrating[slot] = to
+	t.event("slot %d: node %d MIGRATING -> %d (one side)", slot, node, to)
+}
+func (t *Topo) SetNodeImporting(node, slot, from int) {
+	t.cl.nodes[node].cluster.importing[slot] = from
+	t.event("slot %d: node %d IMPORTING <- %d (one side)", slot, node, from)
+}
+
+// SetStable clears the MIGRATING / IMPORTING state of slot on every node (CLUSTER SETSLOT STABLE).
+func (t *Topo) SetStable(slot int) {
+	for _, s := range t.cl.nodes {
+		delete(s.cluster.migrating, slot)
+		delete(s.cluster.importing, slot)
+	}
+	t.event("slot %d: STABLE", slot)
+}
+
+// KeysInSlot lists (sorted) the live keys of slot held in DB 0 of node.
+func (t *Topo) KeysInSlot(node, slot int) []string {
+	var out []string
+	s := t.cl.nodes[node]
+	now := s.nowMs()
+	for k, o := range s.dbs[0] {
+		if o.ExpireAt != 0 && o.ExpireAt <= now {
+			continue
+		}
+		if ref.HashSlot([]byte(k)) == slot {
+			out = append(out, k)
+		}
+	}
+	sort.Strings(out)
+	return out
+}
+
+// Exists reports whether node holds key (DB 0).
+func (t *Topo) Exists(node int, key string) bool {
+	s := t.cl.nodes[node]
+	o, ok := s.dbs[0][key]
+	return ok && !(o.ExpireAt != 0 && o.ExpireAt <= s.nowMs())
+}
+
+func (t *Topo) moveKey(from, to int, key string) bool {
+	src, dst := t.cl.nodes[from], t.cl.nodes[to]
+	o, ok := src.dbs[0][key]
+	if !ok {
+		return false
+	}
+	delete(src.dbs[0], key)
+	dst.dbs[0][key] = o
+	return true
+}
+
+// MoveKeys is MIGRATE: moves the listed keys (all keys of the slot when none are listed) of a
+// MIGRATING slot from its owner to the migration target; returns the number of keys moved.
+func (t *Topo) MoveKeys(slot int, keys ...string) int {
+	from := t.cl.owner[slot]
+	to, ok := t.cl.nodes[from].cluster.migrating[slot]
+	if !ok {
+		return 0
+	}
+	if len(keys) == 0 {
+		keys = t.KeysInSlot(from, slot)
+	}
+	n := 0
+	for _, k := range keys {
+		if ref.HashSlot([]byte(k)) == slot && t.moveKey(from, to, k) {
+			n++
+		}
+	}
+	t.event("slot %d: %d key(s) moved node %d -> node %d %q", slot, n, from, to, keys)
+	return n
+}
+
+// SetSlotOwner is CLUSTER SETSLOT <slot> NODE <to> seen by every node at once: the owner
+// changes, MIGRATING/IMPORTING states of the slot are cleared.  Keys of the slot still held by
+// the old owner are carried over (the double never orphans data).
+func (t *Topo) SetSlotOwner(slot, to int) {
+	from := t.cl.owner[slot]
+	moved := 0
+	if from != to {
+		for _, k := range t.KeysInSlot(from, slot) {
+			if t.moveKey(from, to, k) {
+				moved++
+			}
+		}
+	}
+	t.cl.owner[slot] = to
+	for _, s := range t.cl.nodes {
+		delete(s.cluster.migrating, slot)
+		delete(s.cluster.importing, slot)
+	}
+	t.event("slot %d: owner node %d -> node %d (%d leftover key(s) carried)", slot, from, to, moved)
+}
+
+// MigrateSlot performs a complete migration of slot to node `to` atomically.
+func (t *Topo) MigrateSlot(slot, to int) {
+	if t.cl.owner[slot] == to {
+		return
+	}
+	t.SetMigrating(slot, to)
+	t.MoveKeys(slot)
+	t.SetSlotOwner(slot, to)
+}
+
+// ---- the per-request hooks called from Server.handleLocked (Server.mu held)
+
+func (n *ClusterNode) enter(s *Server) {
+	cl := n.cl
+	cl.mu.Lock()
+	// scheduled changes that are due fire before this request is routed
+	for len(cl.sched) > 0 && cl.sched[0].at <= cl.reqN {
+		it := cl.sched[0]
+		cl.sched = cl.sched[1:]
+		it.fn(&Topo{cl})
+	}
+	cl.reqN++
+}
+
+func (n *ClusterNode) leave(s *Server, c *conn) {
+	cl := n.cl
+	defer cl.mu.Unlock()
+	var last *Req
+	if len(s.reqs) > 0 {
+		last = &s.reqs[len(s.reqs)-1]
+	}
+	// ASKING is one-shot: cleared by the next command, except while a MULTI is open
+	if last != nil && last.Cmd != "ASKING" && !c.inMulti {
+		c.asking = false
+	}
+	for i := n.appMark; i < len(s.applied); i++ {
+		cl.gseq++
+		cl.applied = append(cl.applied, CApp{GSeq: cl.gseq, GReq: cl.reqN, Node: n.idx, App: s.applied[i]})
+		if cl.onApplied != nil {
+			cl.onApplied(&cl.applied[len(cl.applied)-1])
+		}
+	}
+	n.appMark = len(s.applied)
+	if last != nil {
+		if e, ok := last.Reply.(Err); ok {
+			w := string(e)
+			if i := strings.IndexByte(w, ' '); i > 0 {
+				w = w[:i]
+			}
+			switch w {
+			case "MOVED", "ASK", "TRYAGAIN", "CROSSSLOT":
+				cl.redir[w]++
+			}
+		}
+		cr := CReq{GReq: cl.reqN, Node: n.idx, Req: *last}
+		if cl.keepReqs {
+			cl.reqs = append(cl.reqs, cr)
+		}
+		if cl.onRequest != nil {
+			cl.onRequest(&cr)
+		}
+	}
+}
+
+// ---- routing (Redis: getNodeByQuery)
+
+const (
+	errCrossSlot = Err("CROSSSLOT Keys in request don't hash to the same slot")
+	errTryAgain  = Err("TRYAGAIN Multiple keys request during rehashing of slot")
+)
+
+// keysForRouting returns the key arguments of a command as the cluster sees them.
+func keysForRouting(cmd string, args [][]byte) [][]byte {
+	ci, ok := commands[cmd]
+	if !ok {
+		// permissive mode: a command the double does not model is routed by its first argument
+		if len(args) > 0 {
+			return args[:1]
+		}
+		return nil
+	}
+	return keysOf(ci, args)
+}
+
+// route decides whether this node executes a request touching keys; nil = execute here.
+func (n *ClusterNode) route(s *Server, c *conn, keys [][]byte) Reply {
+	if len(keys) == 0 {
+		return nil
+	}
+	cl := n.cl
+	slot := ref.HashSlot(keys[0])
+	multiple := false
+	for _, k := range keys[1:] {
+		if ref.HashSlot(k) != slot {
+			return errCrossSlot
+		}
+		if string(k) != string(keys[0]) {
+			multiple = true
+		}
+	}
+	owner := cl.owner[slot]
+	migTo, migrating := n.migrating[slot]
+	migrating = migrating && owner == n.idx
+	_, importing := n.importing[slot]
+	importing = importing && !migrating
+
+	missing, existing := 0, 0
+	if migrating || importing {
+		now := s.nowMs()
+		for _, k := range keys {
+			o, ok := s.dbs[0][string(k)]
+			if ok && !(o.ExpireAt != 0 && o.ExpireAt <= now) {
+				existing++
+			} else {
+				missing++
+			}
+		}
+	}
+	if migrating && missing > 0 {
+		if existing > 0 {
+			return errTryAgain
+		}
+		return Err(fmt.Sprintf("ASK %d %s", slot, cl.nodes[migTo].addr))
+	}
+	if importing && c.asking {
+		if multiple && missing > 0 {
+			return errTryAgain
+		}
+		return nil
+	}
+	if owner != n.idx {
+		return Err(fmt.Sprintf("MOVED %d %s", slot, cl.nodes[owner].addr))
+	}
+	return nil
+}
+
+// check is called before a command is executed or queued.
+func (n *ClusterNode) check(s *Server, c *conn, cmd string, args [][]byte) Reply {
+	return n.route(s, c, keysForRouting(cmd, args))
+}
+
+// checkTxn is called by EXEC: the transaction is re-validated as a whole (all keys of all
+// queued commands must hash to one slot served here); on a redirect the EXEC is answered with
+// it and the transaction is discarded.
+func (n *ClusterNode) checkTxn(s *Server, c *conn, q []queued) Reply {
+	var keys [][]byte
+	for _, qc := range q {
+		keys = append(keys, keysForRouting(qc.cmd, qc.args)...)
+	}
+	return n.route(s, c, keys)
+}
